@@ -40,7 +40,8 @@ def is_special_decimal(d: dict) -> bool:
 
 
 def vdesc(case: dict) -> Any:
-    return [case.get("v"), case.get("ann"), case.get("env", []), case.get("sig")]
+    return [case.get("v"), case.get("ann"), case.get("env", []), case.get("sig"), case.get("params"), case.get("ret"),
+            case.get("body")]
 
 
 def decimals_reaching(case: dict, xd: dict) -> List[dict]:
